@@ -391,6 +391,8 @@ def match_known(known, prop, arm, viol):
             continue
         if any(f in feats for f in m.get('features_none', ())):
             continue
+        if m.get('features_any') and not any(f in feats for f in m['features_any']):
+            continue
         return k
     return None
 
@@ -406,6 +408,8 @@ def sig_hash(s):
 def run_check(prop_mod, tier, verif_seed, nruns=None, workers=None, wall_cap=None, only_arm=None,
               minimise_budget=None, write_evidence=True, quiet=False):
     t0 = time.time()
+    if getattr(prop_mod, 'WARMUP', None):
+        prop_mod.WARMUP()       # harness-side caches only (reference models), never elementpath
     cfg = prop_mod.TIERS[tier]
     nruns = nruns or cfg['runs']
     workers = workers or min(16, os.cpu_count() or 1)
@@ -593,6 +597,8 @@ def replay_file(path, props):
     with open(path) as fp:
         rep = json.load(fp)
     prop_mod = props[rep['property']]
+    if getattr(prop_mod, 'WARMUP', None):
+        prop_mod.WARMUP()
     arm = dict((a.NAME, a) for a, _ in prop_mod.ARMS)[rep['arm']]
     st, res = fork_call(lambda: execute(arm, rep['case']))
     want = rep['verdict']
